@@ -57,6 +57,7 @@ func c06Netns(c *Ctx) {
 		sync.Mutex
 		op    *rm.Op
 		reply []byte
+		noise [][]byte
 	}
 	fm.SetScript(func(ep *farm.Endpoint, src net.Addr, req []byte, seq uint64) []farm.Action {
 		cur.Lock()
@@ -64,7 +65,13 @@ func c06Netns(c *Ctx) {
 		if cur.op == nil || cur.op.NoReply || len(req) != 64 {
 			return nil
 		}
-		return []farm.Action{{Data: cur.reply}}
+		out := []farm.Action{}
+		if ep.Proto == "udp" {
+			for _, b := range cur.noise {
+				out = append(out, farm.Action{Data: b})
+			}
+		}
+		return append(out, farm.Action{Data: cur.reply})
 	})
 
 	r := c.Rng("netns")
@@ -113,15 +120,6 @@ func c06Netns(c *Ctx) {
 		aux := toAux(p)
 		fixArgs(op, a, aux)
 		u := mkClient(cfg)
-		cur.Lock()
-		cur.op = op
-		if op.Discovery {
-			cur.reply = validReply(r, op, r.Serial(), a)
-		} else {
-			cur.reply = validReply(r, op, serial, a)
-		}
-		cur.Unlock()
-		fm.ResetLog()
 		total := func() int64 {
 			var n int64
 			for _, ep := range fm.Endpoints {
@@ -129,6 +127,38 @@ func c06Netns(c *Ctx) {
 			}
 			return n
 		}
+		hist := c06History(r, u, cfg, serial, [][4]byte{{10, 77, 0, 2}, {10, 77, 0, 3}, {10, 77, 0, 4}, {10, 77, 0, 5}, {127, 0, 0, 1}}, i%40 == 7, func(hop *rm.Op, hs uint32, ha rm.Vals) {
+			cur.Lock()
+			cur.op, cur.noise = hop, nil
+			cur.reply = validReply(r, hop, hs+map[bool]uint32{true: 77, false: 0}[hop.Discovery], ha)
+			cur.Unlock()
+		})
+		if len(hist) > 0 {
+			for q, last := 0, int64(-1); q < 100; q++ {
+				time.Sleep(2 * time.Millisecond)
+				if t := total(); t == last {
+					break
+				} else {
+					last = t
+				}
+			}
+			fm.WaitIdle(2 * time.Second)
+			c.Res.Count("netns:cases-with-earlier-calls-on-the-client", 1)
+		}
+		cur.Lock()
+		cur.op = op
+		if op.Discovery {
+			cur.reply = validReply(r, op, r.Serial(), a)
+		} else {
+			cur.reply = validReply(r, op, serial, a)
+		}
+		cur.noise = c06Noise(r, cur.reply)
+		nNoise := len(cur.noise)
+		cur.Unlock()
+		if nNoise > 0 {
+			c.Res.Count("netns:cases-with-stray-datagrams-before-the-reply", 1)
+		}
+		fm.ResetLog()
 		recvBefore := total()
 		var out rm.Outcome
 		start := time.Now()
@@ -188,7 +218,7 @@ func c06Netns(c *Ctx) {
 			}
 		}
 		wv := map[string]any{"layer": "netns", "op": op.Name, "config": fmt.Sprintf("%+v", cfg), "controller": dv.state, "protocol": dv.proto, "bind": cfg.Bind, "broadcast": bc,
-			"expected": fmt.Sprintf("%s %s (destination address %s)", wantProto, wantEP.Addr, wantDst), "arrivals": desc, "err": out.Err, "elapsed_ms": elapsed.Milliseconds()}
+			"expected": fmt.Sprintf("%s %s (destination address %s)", wantProto, wantEP.Addr, wantDst), "arrivals": desc, "err": out.Err, "elapsed_ms": elapsed.Milliseconds(), "earlier_calls_on_this_client": hist, "stray_datagrams_before_reply": nNoise}
 		key := fmt.Sprintf("C06:netns:%s:%s", dv.state, wantProto)
 		if broadcast && bc == "" {
 			key = "C06:default-broadcast-address"
